@@ -133,6 +133,50 @@ class TimedTrace(TraceUnit):
                         "trace": [json.loads(x) for x in traces[0][:8]]})
 
 
+class ConfirmedSeqUnit(SeqUnit):
+    """SeqUnit for quiescent-point replay of objects with timers: a poller whose element is already due waits for an
+    expired timer that the Go scheduler still has to run, so on a very busy machine "everybody is parked" can be observed
+    a moment too early.  Every mismatch is therefore re-applied to a fresh real object (up to 3 times); only a mismatch
+    that shows again is reported (a glitch of the observation is counted in the evidence, it is never an alarm)."""
+
+    def _confirm(self, ctx, before):
+        keep = []
+        for v in ctx.violations[before:]:
+            with open(v["replay"]) as fh:
+                data = json.load(fh)
+            mm = None
+            if data.get("kind") == "path":
+                mm = data["mismatch"]
+            elif data.get("kind") == "trace":
+                tr, exp = data["trace"], data.get("expected") or []
+                mm = {"sut": self.sut, "cfg": tr[0]["cfg"],
+                      "path": [tr[0]] + [{"stim": {k: x for k, x in e.items() if k not in ("res", "st")}} for e in tr[1:]],
+                      "expected": [{"res": e.get("res"), "st": e.get("st")} for e in exp if isinstance(e, dict)]}
+            again = mm is None
+            for _ in range(3):
+                if again:
+                    break
+                pth = os.path.join(ctx.out, "confirm_path.json")
+                with open(pth, "w") as fh:
+                    json.dump(mm, fh)
+                again = run_h(ctx, ["path", self.sut, pth], timeout=120).returncode != 0
+            if again:
+                keep.append(v)
+            else:
+                ctx.bump("observation_glitches_not_reproduced")
+        ctx.violations[before:] = keep
+
+    def run_lts(self, ctx, sd):
+        before = len(ctx.violations)
+        super().run_lts(ctx, sd)
+        self._confirm(ctx, before)
+
+    def run_trace(self, ctx, sd):
+        before = len(ctx.violations)
+        super().run_trace(ctx, sd)
+        self._confirm(ctx, before)
+
+
 def ctl(module, kind, expect):
     return McUnit("timed", module, kind, name="ctl-%s-%s" % (module, kind.replace("_", "-")), expect=expect, workers=2)
 
@@ -163,11 +207,11 @@ def units(ctx):
         # pattern 1: the API-level models of Queue (Poll on harness threads) and TaskExecutor (callbacks are gates) replayed
         # on the real objects at quiescent points: every order of Add / Poll(wait) / Cancel / Shutdown(flags), resp.
         # ExecuteAt(id, due | hours ahead) / Cancel(id) / callback return / Shutdown(flags) with 1-2 workers
-        SeqUnit("timed", "TimedQueue", traces=(30, 25), thorough_traces=(300, 30), walks=(40, 15), thorough_walks=(300, 25)),
-        SeqUnit("timed", "TaskExec", traces=(30, 25), thorough_traces=(300, 30), walks=(40, 15), thorough_walks=(300, 25)),
+        ConfirmedSeqUnit("timed", "TimedQueue", traces=(30, 25), thorough_traces=(300, 30), walks=(40, 15), thorough_walks=(300, 25)),
+        ConfirmedSeqUnit("timed", "TaskExec", traces=(30, 25), thorough_traces=(300, 30), walks=(40, 15), thorough_walks=(300, 25)),
         # pattern 3: forced schedules (TLC's counterexamples through the verif yield points and callback gates) + free-running
         # scenarios of the real Executor / TaskExecutor with monotonic time stamps, validated by TLC (now' = ts)
-        TimedTrace("timed", "Timed", "timeddrive", args=["-traces", 24], thorough_args=["-traces", 200, "-reps", 12], sut="Timed"),
+        TimedTrace("timed", "Timed", "timeddrive", args=["-traces", 36, "-reps", 8], thorough_args=["-traces", 200, "-reps", 12], sut="Timed"),
     ]
     if ctx.thorough:
         us += [
